@@ -127,6 +127,11 @@ impl<'a, 'ast> rustc_ast::visit::Visitor<'ast> for FmtVisitor<'a> {
                             Some(_) => J::s("dynamic"),
                             None => J::Null,
                         };
+                        let width_arg = match &ph.format_options.width {
+                            Some(rustc_ast::FormatCount::Argument(pos)) => match pos.index { Ok(i) => J::n(i as i128), Err(_) => J::Null },
+                            _ => J::Null,
+                        };
+                        let arg_index = match ph.argument.index { Ok(i) => J::n(i as i128), Err(_) => J::Null };
                         let precision = match &ph.format_options.precision {
                             Some(rustc_ast::FormatCount::Literal(n)) => J::n(*n as i128),
                             Some(_) => J::s("dynamic"),
@@ -134,6 +139,8 @@ impl<'a, 'ast> rustc_ast::visit::Visitor<'ast> for FmtVisitor<'a> {
                         };
                         pieces.push(J::obj(vec![
                             ("trait", J::s(&format!("{:?}", ph.format_trait))),
+                            ("arg", arg_index),
+                            ("width_arg", width_arg),
                             ("width", width),
                             ("precision", precision),
                             ("zero_pad", J::b(ph.format_options.zero_pad)),
@@ -146,12 +153,23 @@ impl<'a, 'ast> rustc_ast::visit::Visitor<'ast> for FmtVisitor<'a> {
                     }
                 }
             }
+            // the argument expressions, when they are plain paths (consts / locals) or literals
+            let mut args = Vec::new();
+            for a in fa.arguments.all_args().iter() {
+                let txt = match &a.expr.kind {
+                    rustc_ast::ExprKind::Path(_, p) => format!("path:{}", p.segments.iter().map(|s| s.ident.name.to_string()).collect::<Vec<_>>().join("::")),
+                    rustc_ast::ExprKind::Lit(l) => format!("lit:{}", l.symbol.as_str()),
+                    _ => "?".to_string(),
+                };
+                args.push(J::s(&txt));
+            }
             // the macro that produced it (format / info / write ...)
             let mac = e.span.ctxt().outer_expn_data().macro_def_id.is_some();
             let mname = format!("{:?}", e.span.ctxt().outer_expn_data().kind);
             self.out.push(J::obj(vec![
                 ("path", J::arr(self.stack.iter().map(|s| J::s(s)).collect())),
                 ("pieces", J::arr(pieces)),
+                ("args", J::arr(args)),
                 ("macro", J::s(&mname)),
                 ("in_macro", J::b(mac)),
                 ("span", J::s(&span_str(self.sm, e.span))),
@@ -459,10 +477,14 @@ fn dump_adt<'tcx>(tcx: TyCtxt<'tcx>, did: DefId) -> J {
 fn dump_const<'tcx>(tcx: TyCtxt<'tcx>, did: DefId) -> J {
     let ty = tcx.type_of(did).instantiate_identity().skip_norm_wip();
     let mut val = J::Null;
+    let mut text = J::Null;
     if !generic_has_non_lifetime(tcx, tcx.generics_of(did)) {
         if let Ok(cv) = tcx.const_eval_poly(did) {
             if let Some(s) = cv.try_to_scalar_int() {
                 val = J::s(&format!("{}", s.to_bits_unchecked()));
+            }
+            if matches!(ty.kind(), ty::Ref(_, inner, _) if inner.is_str()) {
+                text = J::s(&format!("{}", mir::Const::Val(cv, ty)));
             }
         }
     }
@@ -470,6 +492,7 @@ fn dump_const<'tcx>(tcx: TyCtxt<'tcx>, did: DefId) -> J {
         ("path", J::s(&tcx.def_path_str(did))),
         ("ty", J::s(&format!("{}", ty))),
         ("value", val),
+        ("text", text),
         ("span", J::s(&span_str(tcx.sess.source_map(), tcx.def_span(did)))),
     ])
 }
